@@ -331,6 +331,18 @@ Definition raw_accept (i : input) (a : alg) : bool :=
          && opt_eqb alg_eqb (gs_leaf_alg f) (Some a) && gs_sig_ok f
      end.
 
+(* the plugin answers for which a signature may be returned, path by path *)
+Definition is_some {A} (x : option A) : bool := match x with Some _ => true | None => false end.
+
+Definition accepts (i : input) : bool :=
+  match i_meta i with
+  | MErr => false
+  | MCaps raw env =>
+      if raw then match dk_accept i with Some a => raw_accept i a | None => false end
+      else if env then env_accept i && (if i_blob i then is_some (dk_accept i) else true)
+      else false
+  end.
+
 Definition ret_ok (i : input) (a : alg) (r : retfacts) : bool :=
   r_verifies r && String.eqb (r_ctype r) payload_type
   && String.eqb (r_mt r) (i_dmt i) && String.eqb (r_dg r) (i_ddg i) && (r_sz r =? i_dsz i)%Z
